@@ -39,6 +39,21 @@ def check (_params : List String) (lines : List String) : CaseResult := Id.run d
           r := { r with diffs := s!"line {n}: reachedNode after {log.length} traces: model {reached 7 log} impl {rb}" :: r.diffs }
         if impl.any (·.length ≥ 2) then r := { r with nontrivial := true }
       | _, _ => r := { r with bad := s!"line {n}: {ln}" :: r.bad }
+    | ["batch", pre, changed, notify] =>
+      -- the model's records before and after the batch decide `changed` too (the tracker's map, ported): both must agree,
+      -- and a batch that changes the records wakes the node
+      match pre.toNat?, parseBool? changed, parseBool? notify with
+      | some pre, some ch, some nt =>
+        let before := track (log.take pre)
+        let after := track log
+        let norm (m : Bpmn.Model.InclTracker.Map) : List (Nat × Nat) :=
+          (m.toArray.qsort (fun a b => a.1 < b.1 || (a.1 == b.1 && a.2 < b.2))).toList
+        let mch := norm before != norm after
+        if mch != ch then
+          r := { r with diffs := s!"line {n}: batch after {pre} traces changes the records: model {mch} impl {ch}" :: r.diffs }
+        if ch && !nt then
+          r := { r with specs := s!"tracker_batch_not_notified: the batch of the last {log.length - pre} trace(s) changed the tracker's records (a token gone / recorded anew) and the node is not woken after it" :: r.specs }
+      | _, _, _ => r := { r with bad := s!"line {n}: {ln}" :: r.bad }
     | "panic" :: rest => r := { r with specs := s!"tracker_panics: {" ".intercalate rest}" :: r.specs }
     | _ => r := { r with bad := s!"line {n}: {ln}" :: r.bad }
   return r
